@@ -34,7 +34,7 @@ var c07Units = [][]string{
 	{"-v"}, {"--ns.opt=1"}, {"-o", "x"}, {"add"}, {"rm"}, {"deep"}, {"--force"}, {"-f"}, {"--depth=2"}, {"-é5"}, {"w"}, {"--recursive"},
 	// near misses: unknown everywhere
 	{"--Verbose"}, {"--verb"}, {"--verbos"}, {"--verbosee"}, {"--opt"}, {"--ns.ns.opt"}, {"--ns.op=1"}, {"--OPT"}, {"--opt=3"},
-	{"-x"}, {"-vx"}, {"-xv"}, {"-V"}, {"--unk=val"}, {"-x=val"}, {"-è5"}, {"--ns.Opt=1"},
+	{"-x"}, {"-vx"}, {"-xv"}, {"-vxy"}, {"-V"}, {"--unk=val"}, {"-x=val"}, {"-è5"}, {"--ns.Opt=1"},
 	{"--50%off"}, {"-v%"}, {"-v\x00"}, {"-75"}, {"5"},
 }
 
@@ -150,6 +150,13 @@ func init() {
 				if !w.Cluster && w.Name != g.Name {
 					c.Fail("handler-name|"+pol.name, map[string]interface{}{"want": w.Name, "got": g.Name})
 				}
+				for _, u := range w.Unknown {
+					// one call per token: whatever of the cluster is unknown has to be in the name the handler is given
+					if !strings.Contains(g.Name, u) {
+						c.Fail("cluster-character-never-reported|"+pol.name, map[string]interface{}{"handler_was_given": g.Name, "unknown_characters_of_the_cluster": w.Unknown})
+						break
+					}
+				}
 				if (w.Arg == nil) != (g.Arg == nil) || (w.Arg != nil && *w.Arg != *g.Arg) {
 					c.Fail("handler-inline-argument|"+pol.name, map[string]interface{}{"want": w.Arg, "got": g.Arg})
 				}
@@ -184,9 +191,9 @@ func init() {
 		ShardDepth: 5,
 		Body:       body,
 		Rule: "declaration with case-sensitive, namespaced and non-ASCII names and options that exist only in sibling / deeper commands; 7 policies (fail, fail+PassDoubleDash, IgnoreUnknown, handler returning the arguments unchanged / dropping the next / " +
-			"inserting a token / returning an error) x {tags, API} x {fresh parser, parser that already parsed a vector selecting add/deep, selecting rm} x every sequence of <= 4 units (3 for the API build, the reused-parser and the argument-rewriting handler variants; thorough: one more for the fail and IgnoreUnknown policies, 4 for the rest) over 12 valid tokens and 22 near misses (case flips, names containing % or a NUL character, an unknown -<digits> token while an int positional is pending, prefixes, one character dropped/added/changed, " +
-			"namespace missing/doubled/case-changed, unknown character at either end of a cluster, inline arguments, a neighbouring non-ASCII letter); oracle = CLM scope tables and handler call log",
-		Assumptions:  []string{"the name passed to the handler for a multi-character cluster is not asserted", "values of flags that precede an unknown character inside one cluster are not asserted"},
+			"inserting a token / returning an error) x {tags, API} x {fresh parser, parser that already parsed a vector selecting add/deep, selecting rm} x every sequence of <= 4 units (3 for the API build, the reused-parser and the argument-rewriting handler variants; thorough: one more for the fail and IgnoreUnknown policies, 4 for the rest) over 12 valid tokens and 23 near misses (case flips, names containing % or a NUL character, an unknown -<digits> token while an int positional is pending, prefixes, one character dropped/added/changed, " +
+			"namespace missing/doubled/case-changed, unknown character at either end of a cluster, two unknown characters in one cluster, inline arguments, a neighbouring non-ASCII letter); oracle = CLM scope tables and handler call log",
+		Assumptions:  []string{"the name passed to the handler for a multi-character cluster is not asserted beyond: it mentions every character of the cluster, from the first unknown one on, that names no option in scope", "values of flags that precede an unknown character inside one cluster are not asserted"},
 		RequiredHits: []string{"unknown-rejected", "handler-called", "continued-after-unknown", "after-earlier-parse"},
 		Bound:        [2]string{"unit sequences <= 4", "unit sequences <= 5"},
 		BudgetS:      [2]int{170, 1500},
